@@ -46,6 +46,10 @@ class TapeImageContentExtractor(TapeImageWorker):
                 listener.onBeginFileBlock(desc)
                 fileContent = bytearray()  # initialize accumulator
             elif block.type == TypeOfTapeBlock.EOF:
+                if "/" in f"{desc.fileName}.{desc.fileExtension}":
+                    raise ValueError(
+                        f"invalid.file.name:{desc.fileName}.{desc.fileExtension}"
+                    )
                 with open(
                     os.path.join(targetDir, f"{desc.fileName}.{desc.fileExtension}"),
                     "wb",
